@@ -885,6 +885,12 @@ func genPolicy(r *rand.Rand, advance bool) zzsim.Policy {
 		pol.Mute = "R6"
 	}
 	pol.MapPerm = r.IntN(2) == 0
+	if r.IntN(5) == 0 {
+		// hold one asynchronously started task (a change notification, a janitor cycle) back from
+		// one of its first steps on, until nothing else can run
+		pol.DelayTask = 1 + r.IntN(8)
+		pol.DelayAt = 1 + r.IntN(3)
+	}
 	if advance {
 		pol.AdvanceP = []float64{0, 0.02, 0.08}[r.IntN(3)]
 		pol.AdvancePal = []int64{int64(time.Millisecond), int64(50 * time.Millisecond), int64(time.Second), int64(10 * time.Second)}
